@@ -8,7 +8,8 @@ FUNCTIONS_ENCODED = ['pgradd.RDkitWrapper.GenRxnNet:GenerateRxnNet']
 BOUNDS = {
     'quick': 'n = 3 abstract species, 1 unimolecular rule with <= 2 products per species (targets symbolic), symbolic '
              'over-valence flag per species, 1 seed; n = 2 with 2 rules (1 product each) and 2 seeds; n = 3 with 2 rules (1 product each) and 1 seed',
-    'thorough': 'additionally n = 4 species, 1 rule, 2 products; n = 2 and n = 3 species, 2 rules, 2 seeds, 2 products',
+    'thorough': 'additionally n = 2 species, 2 rules, 2 seeds, 2 products each; n = 4 species, 1 rule, 1 product; n = 3 species, '
+                '2 rules, 2 seeds, 1 product',
 }
 STUBS = ['fake Chem/PeriodicTable in GenRxnNet: species are abstract ids; identity = mutual substructure test on ids; '
          'a rule is a symbolic successor relation; valence filter = symbolic flag per species',
@@ -189,18 +190,28 @@ def _split1(name, base, n, to):
     return obs
 
 
+def _split2(name, base, n, to):
+    """split over the first product of species 0 under rule 0 and under rule 1"""
+    obs = []
+    for a in range(n + 1):
+        for b in range(n + 1):
+            p = dict(base)
+            p['fix'] = {'r0_s0_p0': a, 'r1_s0_p0': b}
+            obs.append(dict(name='%s_fix%d%d' % (name, a, b), func='h_closure', param=p, timeout=to))
+    return obs
+
+
 def obligations(tier, seed):
     q = tier == 'quick'
-    to = 200 if q else 3000
+    to = 200 if q else 1500
     obs = _split('closure_n3_r1', dict(n=3, rules=1, seeds=1, width=2), 3, to)
     obs.append(dict(name='closure_n2_r2_s2_w1', func='h_closure', param=dict(n=2, rules=2, seeds=2, width=1), timeout=to))
     # two rules, one seed: the same new species can be produced by both rules from one reactant
     obs += _split1('closure_n3_r2_s1_w1', dict(n=3, rules=2, seeds=1, width=1), 3, to)
     if not q:
-        obs += _split('closure_n3_r2_s2_w1', dict(n=3, rules=2, seeds=2, width=1), 3, to)
         obs += _split('closure_n2_r2_s2', dict(n=2, rules=2, seeds=2, width=2), 2, to)
-        obs += _split('closure_n4_r1', dict(n=4, rules=1, seeds=1, width=2), 4, to)
-        obs += _split('closure_n3_r2_s2', dict(n=3, rules=2, seeds=2, width=2), 3, to)
+        obs += _split1('closure_n4_r1_w1', dict(n=4, rules=1, seeds=1, width=1), 4, to)
+        obs += _split2('closure_n3_r2_s2_w1', dict(n=3, rules=2, seeds=2, width=1), 3, to)
     return obs
 
 
